@@ -27,6 +27,11 @@ def find_in_impls(g, ex, name):
 RULES = [
     ('R-misc', r'\bunsafe \{', '{'),
     ('R-len', r'\bN::USIZE\b', 'N::usize_()'),
+    # the same reinterpretations written with `pointer::cast::<X>()` instead of `as *const X`
+    ('R-ptr', r'&(?:mut )?\*\(?slice\.as_(?:mut_)?ptr\(\)\.cast::<GenericArray<T, N>>\(\)\)?', 'deref(slice.as_ptr().cast(N::usize_()))'),
+    ('R-ptr', r'\(self as \*(?:const|mut) Self\)\.cast::<T>\(\)', 'self_.as_ptr().cast(1)'),
+    ('R-ptr', r'\bslice\.as_(?:mut_)?ptr\(\)\.cast::<GenericArray<T, N>>\(\)', 'slice.as_ptr().cast(N::usize_())'),
+    ('R-ptr', r'\bslice\.as_(?:mut_)?ptr\(\)\.cast::<T>\(\)', 'slice.as_ptr().cast(1)'),
     ('R-ptr', r'&(?:mut )?\*\(slice\.as_(?:mut_)?ptr\(\) as \*(?:const|mut) GenericArray<T, N>\)', 'deref(slice.as_ptr().cast(N::usize_()))'),
     ('R-ptr', r'\bself as \*(?:const|mut) Self as \*(?:const|mut) T\b', 'self_.as_ptr().cast(1)'),
     ('R-ptr', r'\bslice\.as_(?:mut_)?ptr\(\) as \*(?:const|mut) GenericArray<T, N>', 'slice.as_ptr().cast(N::usize_())'),
@@ -120,8 +125,7 @@ def generate(g, ex):
         one(nm, 'pub fn %s<N: ArrayLength>(slice: Sl) -> (ret: PanicOr<(Sl, Sl)>)' % nm, ['slice.stride == 1', SRC_OK],
             [('n0-panics-iff-nonempty', ['C10'], 'N::n() == 0 ==> (ret is Panic <==> slice.len != 0)'),
              ('n0-empty-gives-two-empty', ['C10'], 'N::n() == 0 && slice.len == 0 ==> ret->Ret_0.0.len == 0 && ret->Ret_0.1.len == 0'),
-             ('partition', ['C10'], CH)],
-            hints=[(r'(let num_in_chunks = )', r'proof { lemma_chunks(slice.len, N::n()); } \1')])
+             ('partition', ['C10'], CH)])   # division facts: lemma_chunks_entry at function entry (no anchor inside the body)
     for nm in ('slice_from_chunks', 'slice_from_chunks_mut'):
         one(nm, 'pub fn %s<N: ArrayLength>(slice: Sl) -> (ret: PanicOr<Sl>)' % nm, ['slice.stride == N::n()', SRC_OK],
             [('never-panics', ['C10'], 'ret is Ret'),
